@@ -530,7 +530,7 @@ def b_accessor(ctx):
     import pylife.stress.equistress as eqs   # noqa
     rng = np.random.default_rng(ctx.seed + 7)
     n = 6 if ctx.tier == 'quick' else 40
-    ctx.bound = f"{n} frames of 7 rows, shuffled, string / integer / multi index"
+    ctx.bound = f"{n} frames of 7 rows, shuffled, string / integer / multi index, tensor columns listed in 4 orders, with and without further columns"
     ctx.rule = "frame with >= 2 distinct rows"
     for k in range(n):
         data = rng.normal(size=(7, 6)) * 100
@@ -538,6 +538,13 @@ def b_accessor(ctx):
                pd.MultiIndex.from_arrays([list('aabbccd'), rng.permutation(7)], names=['x', 'y'])][k % 3]
         df = pd.DataFrame(data, columns=['S11', 'S22', 'S33', 'S12', 'S13', 'S23'], index=idx)
         df = df.iloc[rng.permutation(7)]
+        # the tensor frame is identified by its column NAMES: columns listed in another order (Voigt, ANSYS, row-major triangle) and further columns in between
+        # (added after seed C17-e picked the components by position)
+        orders = [['S11', 'S22', 'S33', 'S12', 'S13', 'S23'], ['S11', 'S22', 'S33', 'S23', 'S13', 'S12'], ['S11', 'S22', 'S33', 'S12', 'S23', 'S13'], ['S11', 'S12', 'S13', 'S22', 'S23', 'S33']]
+        df = df[orders[k % 4]]
+        if k % 2:
+            df.insert(2, 'x', 1.0)
+            df['y'] = 2.0
         ctx.case(True, key=k)
         for name in ('mises', 'tresca', 'max_principal', 'min_principal', 'abs_max_principal', 'signed_mises_trace', 'signed_tresca_trace',
                      'signed_mises_abs_max_principal', 'signed_tresca_abs_max_principal'):
@@ -552,6 +559,12 @@ def b_accessor(ctx):
         pr = df.equistress.principals()
         if not pr.index.equals(df.index):
             ctx.fail('C17:accessor-index', 'principals: index differs', None)
+        for i in range(7):
+            row = df.iloc[i]
+            w = np.asarray(eqs.principals(row.S11, row.S22, row.S33, row.S12, row.S13, row.S23), dtype=float).ravel()
+            if not np.allclose(pr.iloc[i][['min_principal', 'med_principal', 'max_principal']].to_numpy(dtype=float), w, rtol=1e-9, atol=1e-7):
+                ctx.fail('C17:accessor-row', f'principals: row {i} {pr.iloc[i].tolist()} != {w.tolist()} (columns listed as {list(df.columns)})', {'row': row.tolist(), 'columns': list(df.columns)})
+                break
     ctx.sample({'frame_rows': 7, 'index_kinds': ['str', 'int', 'multi']})
 
 
